@@ -275,7 +275,13 @@ func ExecuteScenario(env *Env, sc *Scenario) (out *Outcome, err error) {
 	case "compare-bytes":
 		// C04 D1-D3, D5: every variant ends in the same bytes and saw the same calls
 		for vi := 1; vi < len(results); vi++ {
-			if f, why := diffStates(results[0].state, results[vi].state); f != "" {
+			a, b := results[0].state, results[vi].state
+			if strings.HasPrefix(sc.Variants[vi].Name, "eventual:") {
+				// a failed run followed by the same run again: the same generated files in the end; gengo.sum
+				// records the tree the second run started from, which now holds outputs
+				a, b = dropSum(a), dropSum(b)
+			}
+			if f, why := diffStates(a, b); f != "" {
 				class := "generated-file-differs"
 				if f == "gengo.sum" {
 					class = "sum-differs"
@@ -285,7 +291,7 @@ func ExecuteScenario(env *Env, sc *Scenario) (out *Outcome, err error) {
 					Detail: fmt.Sprintf("%s vs %s: %s: %s", sc.Variants[0].Name, sc.Variants[vi].Name, f, why), Variant: sc.Variants[vi].Name,
 					Facts: shadowFacts(sc.Module)})
 			}
-			if results[0].calls != results[vi].calls {
+			if results[0].calls != results[vi].calls && !strings.HasPrefix(sc.Variants[vi].Name, "eventual:") {
 				kind := strings.SplitN(sc.Variants[vi].Name, ":", 2)[0]
 				out.Violations = append(out.Violations, Violation{Property: "C04", Oracle: "D5", Class: "generatetype-sequence-differs/" + kind,
 					Detail: fmt.Sprintf("%s vs %s: %s", sc.Variants[0].Name, sc.Variants[vi].Name, firstDiff(results[0].calls, results[vi].calls)), Variant: sc.Variants[vi].Name,
@@ -402,7 +408,7 @@ func executeUniverse(env *Env, sc *Scenario, mroot string) ([]Violation, error) 
 				_ = os.RemoveAll(filepath.Dir(other))
 			}
 		}
-		resp, err := w.Do(&proto.RunReq{Root: mroot, Args: run.Args, Sched: run.Sched, Universe: true, UniAll: sc.ExternalRoot != "" || sc.UniAll, UniMethodsFirst: strings.Contains(v.Name, "methods-first"), NoEvents: true}, 4*env.Timeout)
+		resp, err := w.Do(&proto.RunReq{Root: mroot, Args: run.Args, Sched: run.Sched, Universe: true, UniAll: sc.ExternalRoot != "" || sc.UniAll, UniMethodsFirst: strings.Contains(v.Name, "methods-first"), DriverFailsOnce: strings.Contains(v.Name, "driver-fails-once"), NoEvents: true}, 4*env.Timeout)
 		x.Close()
 		if err != nil {
 			return nil, infra("universe: %v", err)
@@ -414,6 +420,10 @@ func executeUniverse(env *Env, sc *Scenario, mroot string) ([]Violation, error) 
 			continue
 		}
 		if resp.LoadErr != "" {
+			if strings.Contains(v.Name, "driver-fails-once") {
+				env.Stats.Add("probe/load-failed-with-failing-driver", 1)
+				continue // failing is fine; succeeding with a broken universe is not
+			}
 			viol = append(viol, Violation{Property: "C13", Oracle: "U0", Class: "load-error", Detail: firstLine(resp.LoadErr), Variant: v.Name})
 			continue
 		}
